@@ -9,7 +9,8 @@ BOUND = ("x86-64 ELF module of 4 code blocks (target block kinds plain/jmp/ret/c
          "deletion with retarget_to_proxy, and pairs of compatible modifications (all pairs in thorough, a seed-chosen slice of 40 per shape in quick)")
 
 SPEC = {
-    "C01": dict(vals=[VAL.c01_bytes], clauses=["C01/bytes-are-the-listing-edit", "C01/section-contiguous"], space=dict(gaps=(False, True))),
+    "C01": dict(vals=[VAL.c01_bytes], clauses=["C01/bytes-are-the-listing-edit", "C01/section-contiguous"],
+                space=dict(gaps=(False, True), data_follows=(False, True), patches=["plain", "jmpL2", "ret", "callg", "jcc", "lab", "lab0", "jmplab", "samehead", "samehead2", "selfloop", "twocalls", "othersec"])),
     "C02": dict(vals=[VAL.c02_labels], clauses=["C02/label-designates-the-same-listing-position", "C02/patch-label-designates-its-position-in-the-patch",
                                                  "C02/no-dangling-referent", "C02/retarget_to_proxy-makes-labels-external", "C02/label-survives"], space=dict(bare=(False, True))),
     "C03": dict(vals=[VAL.c03_cfg], clauses=["C03/falls-through-to-the-physically-next-block", "C03/no-fallthrough-after-ret-or-jmp",
